@@ -100,6 +100,10 @@ fn gen_source(rng: &mut Rng) -> Src {
                    Src { from: format!("t1 {jt} t2 ON t1.a = t2.a"), cols: vec![("t1.a".into(), "i"), ("t1.b".into(), "i"), ("t1.c".into(), "f"), ("t1.d".into(), "t"), ("t2.f".into(), "f"), ("t2.g".into(), "t"), ("t2.a".into(), "i")] } }
         6 => { let jt = *rng.pick(&["JOIN", "LEFT JOIN"]);
                Src { from: format!("t1 {jt} t2 USING (a)"), cols: vec![("a".into(), "i"), ("b".into(), "i"), ("c".into(), "f"), ("f".into(), "f"), ("g".into(), "t")] } }
+        // ON clauses with a term on one side only: an outer join still returns the rows of its preserved side that fail the term
+        7 if rng.chance(1, 2) => { let jt = *rng.pick(&["LEFT JOIN", "RIGHT JOIN", "FULL JOIN", "JOIN"]);
+               let extra = match rng.below(4) { 0 => format!("t1.b > {}", rng.range(-2, 3)), 1 => format!("t3.h > {}", rng.range(10, 60)), 2 => format!("t1.b < {}", rng.range(0, 4)), _ => format!("t3.k < {}", rng.range(1, 3)) };
+               Src { from: format!("t1 {jt} t3 ON t1.e = t3.k AND {extra}"), cols: vec![("t1.a".into(), "i"), ("t1.b".into(), "i"), ("t3.k".into(), "i"), ("t3.h".into(), "i"), ("t1.d".into(), "t")] } }
         7 => { let jt = *rng.pick(&["JOIN", "LEFT JOIN", "RIGHT JOIN", "FULL JOIN"]);
                Src { from: format!("t1 {jt} t3 ON t1.e = t3.k"), cols: vec![("t1.a".into(), "i"), ("t1.b".into(), "i"), ("t3.k".into(), "i"), ("t3.h".into(), "i"), ("t1.d".into(), "t")] } }
         8 => Src { from: "t1 NATURAL JOIN t2".into(), cols: vec![("a".into(), "i"), ("b".into(), "i"), ("f".into(), "f"), ("d".into(), "t")] },
@@ -382,7 +386,12 @@ pub fn eval(case: &J) -> Outcome {
             // a CASE whose condition is NULL takes the ELSE branch in SQL; the library types the CASE as NULL in that case
             let case_on_nullable = ["CASE WHEN e ", "CASE WHEN t1.e ", " WHEN e ", " WHEN t1.e "].iter().any(|p| sql.contains(p)) && row[ci] != Cell::Null;
             let cls = if empty_agg { "null-aggregate-over-empty-input".to_string() } else if extremum_of_nullable { "value/least-greatest-of-nullable".to_string() } else if case_on_nullable { "value/case-condition-on-nullable".to_string() } else if (sql.contains("sin(") || sql.contains("cos(") || sql.contains("tan(")) && matches!(row[ci], Cell::Real(_)) && f.data_type().to_string().contains("float{") { "value/sin-cos-of-wide-range".to_string() } else if row[ci] == Cell::Null { format!("null/{cls}") } else if sql.contains("FULL JOIN") || sql.contains("LEFT JOIN") || sql.contains("RIGHT JOIN") { "value/outer-join".to_string() } else { format!("value/{cls}") };
-            if !ok { out.fail(&format!("C07/sqlx/cell-outside-type/{cls}"), format!("{sql}: column `{}` is declared {} but execution produced {} (row {:?})", f.name(), f.data_type(), row[ci], row)); break; }
+            if !ok { out.fail(&format!("C07/sqlx/cell-outside-type/{cls}"), format!("{sql}: column `{}` is declared {} but execution produced {} (row {:?})", f.name(), f.data_type(), row[ci], row));
+                // a *bare column* of the inputs whose returned value lies outside its type under a WHERE or an ON clause: the narrowing dropped a row
+                // that satisfies the predicate (C10); expression columns are judged by C06 / C07 only
+                let bare = match &rel { Relation::Map(m) => m.projection().get(i).map_or(false, |e| matches!(e, qrlew::expr::Expr::Column(_))) && m.filter().is_none(), _ => false };
+                if bare && (sql.contains(" WHERE ") || sql.contains(" ON ")) && row[ci] != Cell::Null { out.fail(&format!("C10/sqlx/returned-row-outside-narrowed-type/{cls}"), format!("{sql}: column `{}` is narrowed to {} but the query returns {} (row {:?})", f.name(), f.data_type(), row[ci], row)); }
+                break; }
         }
         if !out.oracle.is_empty() { break; }
     }
